@@ -46,6 +46,8 @@ func main() {
 		cmdRaceSum(os.Args[2:])
 	case "check":
 		cmdCheck(os.Args[2:])
+	case "newargs":
+		cmdNewArgs()
 	default:
 		usage()
 	}
